@@ -284,6 +284,20 @@ func run(tier string, shard, nsh int, res *ev.Result) {
 						continue
 					}
 					full := q.Bytes()
+					if tidunit[0] == 0x0102 {
+						// the same request with its (exported) ProtocolID field set to something else: whatever the library then
+						// encodes is "a request frame the library can encode" as well
+						lib.SetField(q, "ProtocolID", 1)
+						alt := q.Bytes()
+						lib.SetField(q, "ProtocolID", 0)
+						for _, allow := range []bool{false, true} {
+							for _, l := range []int{8, len(alt) - 1, len(alt)} {
+								if l >= 8 && l <= len(alt) {
+									evalPrefix(alt[:l:l], len(alt), r.FC, allow, res, lc)
+								}
+							}
+						}
+					}
 					for _, allow := range []bool{false, true} {
 						for l := 0; l <= len(full); l++ {
 							evalPrefix(full[:l:l], len(full), r.FC, allow, res, lc)
